@@ -151,6 +151,7 @@ def sequential_history(config, seed, workdir):
     rng = random.Random(seed)
     be = sd.Backend(config, workdir)
     try:
+        common.decoy(be.storage, seed % 3)
         study = optuna.create_study(storage=be.storage, sampler=optuna.samplers.RandomSampler(seed=seed))
         ev = []
         rec = Recorder(study, ev.append)
@@ -198,6 +199,7 @@ def concurrent_history(kind, seed, workdir):
         close = lambda: None  # noqa
     _SCHED[0] = sched
     try:
+        common.decoy(storages[0], seed % 3)
         s0 = optuna.create_study(storage=storages[0], study_name="q", sampler=optuna.samplers.RandomSampler(seed=seed))
         ev = []
         rec0 = Recorder(s0, ev.append)
